@@ -478,7 +478,16 @@ func verifC05Pipeline(n int) {
 	want := "log" + sel
 	valid := true
 	for i := 0; i < n; i++ {
+		before := len(g.toks)
 		s, ok := g.genStage("s"+strconv.Itoa(i), false)
+		if i > 0 && before >= 1 && g.toks[before-1].Type == lexer.Ident {
+			// `| keep a != "x"`: after a bare label a following `!=`/`!~` line
+			// filter is read as a matcher on that label: LogQL's grammar is
+			// ambiguous here and this reading is as good as the other
+			if t := g.toks[before].Type; t == lexer.NotEq || t == lexer.NotRe {
+				vsymAssume(false)
+			}
+		}
 		want += s
 		if !ok {
 			valid = false
